@@ -177,6 +177,12 @@ Definition retains_from_source : bool :=
   match sync_slice_params_retained with [] => false | _ => true end.
 Definition writes_params_from_source : bool :=
   match sync_slice_params_written with [] => false | _ => true end.
+(* append on a slice parameter happens only in three internal functions whose
+   argument is always a slice the library itself allocated (the encodation
+   buffers of datamatrix and pdf417), never on caller memory *)
+Definition appends_only_internal : bool :=
+  string_list_eqb sync_slice_params_appended
+    ["datamatrix.addPadding"; "datamatrix.calcECC"; "pdf417.encodeData"]%string.
 
 (* ---------- (iii) searching a Go map by value ---------- *)
 (* code39/code93 getChecksum range over a map (unspecified order) and return the
